@@ -968,7 +968,9 @@ func Main(wide bool) {
 		// the model re-judges the trace.
 		for _, l := range vh.ReadLines(path) {
 			w := strings.Fields(l)
-			if len(w) > 0 && (w[0] == "avail" || w[0] == "calls" || w[0] == "alive" || w[0] == "probes") {
+			if len(w) > 0 && (w[0] == "rx" || w[0] == "rxk" || w[0] == "rd") {
+				fmt.Println(RunRx(l)) // executed on the real receive loop
+			} else if len(w) > 0 && (w[0] == "avail" || w[0] == "calls" || w[0] == "alive" || w[0] == "probes") {
 				fmt.Println("(recorded)")
 			} else {
 				fmt.Println("ok")
@@ -981,6 +983,28 @@ func Main(wide bool) {
 	runs := 40
 	if tier == "thorough" {
 		runs = 600
+	}
+	// the receive loop over scripted sockets (no wall clock): chunks and read-deadline expiries
+	nrx := 0
+	if !wide {
+		rr := vh.NewRng(vh.EnvSeed() ^ 0x5eed5eed)
+		n := 1500
+		if tier == "thorough" {
+			n = 40000
+		}
+		for i := 0; i < n; i++ {
+			var line, cls string
+			switch {
+			case i%6 == 5:
+				line, cls = GenRx(rr, true)
+			case i%6 == 4:
+				line, cls = GenRd(rr)
+			default:
+				line, cls = GenRx(rr, false)
+			}
+			out.Case(line, RunRx(line), cls, true)
+			nrx++
+		}
 	}
 	nreq := 0
 	kinds := map[string]int{}
@@ -1013,5 +1037,5 @@ func Main(wide bool) {
 	if len(odd) > 0 {
 		os.WriteFile(path+"/odd_errors.txt", []byte(strings.Join(odd, "\n")+"\n"), 0o644)
 	}
-	out.Close(map[string]interface{}{"scenarios": runs, "requests_observed": nreq, "answer_kinds": kinds, "write_shapes": shape})
+	out.Close(map[string]interface{}{"scenarios": runs, "requests_observed": nreq, "scripted_socket_cases": nrx, "answer_kinds": kinds, "write_shapes": shape})
 }
